@@ -16,6 +16,7 @@ from .. import encode, seams
 ID = 'C07'
 LEVEL = 'model_checking'
 TRACE = 'trace/Trace_C07'
+PROCESS_EVERY = 5         # every fifth case runs the command line as a real process (seams.PROC_VARIANTS)
 RULE = ('case = one option record (6 switches x subset of 7 severity groups x look-up key) swept over '
         'severities x action-flag words through the real considerPEL, or one CLI invocation on a '
         'directory of PELs; non-trivial = the recorded verdict vector is neither all-selected nor '
